@@ -63,8 +63,12 @@ def run_scenario(scen, api, ext, proto):
     cbname = cb_of(scen)
     installed = set()
 
+    # (the write-registration callbacks also fire while the connection is being set up, where the library's own loop_write()
+    # in the CONNACK handler would flush whatever a nested call queued: these two scenarios act on an established connection)
+    armed = {"v": cbname not in ("on_socket_register_write", "on_socket_unregister_write")}
+
     def nested(cl):
-        if fired["n"]:
+        if fired["n"] or not armed["v"]:
             return
         fired["n"] = 1
         res["held"] = held_locks(cl)
@@ -117,8 +121,11 @@ def run_scenario(scen, api, ext, proto):
         installed.add("on_log")
 
     def pump_write():
+        # the application's event loop: a write event only for a socket with an outstanding write registration
         if ext:
-            c.loop_write()
+            res["lostwake"] = res["lostwake"] or int(c._sock is not None and c.want_write() and not reg["w"])
+            if reg["w"]:
+                c.loop_write()
     try:
         c.connect("broker", 1883, 60)
         pump_write()
@@ -179,8 +186,9 @@ def run_scenario(scen, api, ext, proto):
             s.feed_eof()
             c.loop_read()
         elif scen in ("on_socket_register_write", "on_socket_unregister_write"):
+            armed["v"] = True
             c.publish("t", b"x", 0)
-            c.loop_write()
+            pump_write()
         # the next loop iteration: whatever the nested call queued must reach the transport
         # (an external event loop gives write events only to a socket with an outstanding write registration)
         pump = 0
